@@ -143,7 +143,7 @@ C05Scn(p) ==
 ---------------------------------------------------------------------------
 (* C11: refresh histories against provider policies *)
 Policies == {"noRotate", "rotate", "rotateSometimes", "omitId", "omitAt", "omitExp", "omitAll", "keyChange", "failBefore", "failAfter",
-             "badSig", "badAud", "http400", "garbageId", "foreignNonce"}
+             "badSig", "badAud", "http400", "garbageId", "foreignNonce", "failAfter503", "dropAfter", "dropBefore", "shorterLifetime"}
 C11Space == [pol : Policies, n : IF Quick THEN {1, 3} ELSE 1..6, fwd : BOOLEAN, store : {"memory", "redis"}]
 
 PolAns(pol, i) ==
@@ -157,13 +157,17 @@ PolAns(pol, i) ==
     [] pol = "keyChange" -> [Ans0 EXCEPT !.id = "goodK3", !.keySet = "k3", !.rotate = TRUE]
     [] pol = "failBefore" -> [Ans0 EXCEPT !.mode = "fail-before"]
     [] pol = "failAfter" -> [Ans0 EXCEPT !.mode = "fail-after", !.rotate = TRUE]
+    [] pol = "failAfter503" -> [Ans0 EXCEPT !.mode = "fail-after:503", !.rotate = TRUE]
+    [] pol = "dropAfter" -> [Ans0 EXCEPT !.mode = "drop-after", !.rotate = TRUE]
+    [] pol = "dropBefore" -> [Ans0 EXCEPT !.mode = "drop"]
+    [] pol = "shorterLifetime" -> [Ans0 EXCEPT !.expiresIn = 20, !.rotate = TRUE]      \* the refresh grants a shorter access-token lifetime than the login did
     [] pol = "badSig" -> [Ans0 EXCEPT !.id = "foreignKey"]
     [] pol = "badAud" -> [Ans0 EXCEPT !.id = "audForeign"]
     [] pol = "http400" -> [Ans0 EXCEPT !.mode = "status:400"]
     [] pol = "garbageId" -> [Ans0 EXCEPT !.id = "garbage", !.rotate = TRUE]
     [] pol = "foreignNonce" -> [Ans0 EXCEPT !.rfNonce = "foreign"]
 
-Failing == {"failBefore", "failAfter", "badSig", "badAud", "http400"}
+Failing == {"failBefore", "failAfter", "badSig", "badAud", "http400", "failAfter503", "dropAfter", "dropBefore"}
 
 RECURSIVE Rounds(_, _, _)
 Rounds(pol, i, n) ==
@@ -175,14 +179,14 @@ Rounds(pol, i, n) ==
 C11Scn(p) ==
   Scn("c11/" \o p.pol \o "/n" \o ToString(p.n) \o (IF p.fwd THEN "/fwd/" ELSE "/nofwd/") \o p.store,
       <<Flt("f1", p.fwd, p.store)>>,
-      <<Browse("b1", "f1", 1, Ans0)>> \o Rounds(p.pol, 1, p.n) \o <<App("b1", "f1", "jar", 3, Ans0)>>,
+      <<Browse("b1", "f1", 1, IF p.pol = "shorterLifetime" THEN [Ans0 EXCEPT !.expiresIn = 300] ELSE Ans0)>> \o Rounds(p.pol, 1, p.n) \o <<App("b1", "f1", "jar", 3, Ans0)>>,
       <<"refreshPolicies", IF p.pol \in Failing THEN "lastRefreshFails" ELSE "refreshSucceeds">>)
 
 ---------------------------------------------------------------------------
 (* C13: configurations with reserved / non-ASCII characters x requested URLs *)
 AQ   == {"", "tenant=a", "a=b%20c&d=%2F%3F%26&e=%C3%BC&a=2"}
 CIDs == {"", "cl ient/&=?#%+", "ü-client-✓"}
-Scps == {<<>>, <<"profile", "email">>, <<"openid", "x+y", "ü">>}
+Scps == {<<>>, <<"profile", "email">>, <<"openid", "x+y", "ü">>, <<"myopenid", "https://api.example.com/openid.read">>}
 C13Space == IF Quick THEN [aq : AQ, cid : CIDs, sc : Scps, url : {1}] \cup [aq : AQ, cid : {""}, sc : {<<>>}, url : URLs]
             ELSE [aq : AQ, cid : CIDs, sc : Scps, url : URLs]
 C13Scn(p) ==
